@@ -267,3 +267,151 @@ def _between(fn, a, b):
         if b == q or b in fn.reach_from([q], avoid=[a]):
             out.add(q)
     return out
+
+
+# ------------------------------------------------------------------ third pass (replays/C13-hunt3)
+
+NAME_TABLES = {                 # (validator, field) -> (name table indexed by that field, the bound macro): confirmed by reading
+    ("dhcp4_hdr_check", "htype"): ("dhcp4_header_htype", "DHCP4_HDR_HTYPE_MAX"),
+}
+
+
+def table_bound_rule(rep, u, hdr="include/proto/dhcpv4.h"):
+    """a header validator accepts a field value only if the library's own table for that field has an entry for it: the largest
+    accepted value (evaluated on the validator's test) is below the number of table entries (constant-evaluated by clang)"""
+    from props import tp
+    from rules import r_mpt
+    n = 0
+    for (fname, field), (table, macro) in sorted(NAME_TABLES.items()):
+        fn = u.fn(fname)
+        if fn is None or not fn.has_cfg:
+            raise driver.AnalysisBroken("anchor %s vanished" % fname)
+        rep.functions.add(fname)
+        vals = tp.probe(hdr, {"items": "sizeof(%s) / sizeof(%s[0])" % (table, table)}, "c13:table:%s" % table)
+        items = vals.get("items")
+        if not items:
+            raise driver.AnalysisBroken("table %s not evaluated" % table)
+        # the largest value of the field that passes every test of the validator mentioning it
+        accepted = []
+        for v in range(0, items + 3):
+            ok = True
+            seen = False
+            for bid in fn.reachable_blocks():
+                c = fn.blocks[bid].cond
+                if c is None:
+                    continue
+                atoms = [y for y, _ in _walk(c) if y.get("k") == "mem" and y["f"] == field]
+                if not atoms:
+                    continue
+                seen = True
+                try:
+                    r = r_mpt.eval_expr(c, {id(a): v for a in atoms})
+                except r_mpt.Unknown:
+                    continue
+                s_ = fn.blocks[bid].succ[0] if r else fn.blocks[bid].succ[1]
+                # an edge straight into a failing return refuses the value
+                if s_ is not None and any(e.get("k") == "ret" and (const_val(e.get("e") or {}) or 1) != 0 for e in fn.blocks[s_].elems):
+                    ok = False
+            if not seen:
+                raise driver.AnalysisBroken("%s: no test of ->%s" % (fname, field))
+            if ok:
+                accepted.append(v)
+        n += 1
+        hi = max(accepted) if accepted else -1
+        desc = "%s accepts ->%s only up to the last entry of %s[] (%d entries)" % (fname, field, table, items)
+        (rep.proved if hi < items else rep.violated)("R-TABLE", fn, "accepted-%s-has-a-name" % field, desc, "largest accepted value %d" % hi if hi < items else
+                                                     "value %d passes the check, %s[] ends at %d: a lookup of the checked header's %s reads behind the table" % (hi, table, items - 1, field))
+    return n
+
+
+def offset_wrap_rule(rep, u, rel):
+    """`need > (size - off)` with both operands of the subtraction unsigned parameters is only a bound if off <= size was
+    established first: otherwise the difference wraps and the test passes for every off > size."""
+    from rules import r_range
+    n = 0
+    for fn in u.function_list:
+        if fn.relfile() != rel or not fn.has_cfg:
+            continue
+        pids = {p["id"]: p["n"] for p in fn.params if (u.type(p["t"]) or {}).get("k") == "int" and not u.type(p["t"]).get("sg")}
+        for bid in fn.reachable_blocks():
+            c = fn.blocks[bid].cond
+            if c is None:
+                continue
+            for y, ps in _walk(c):
+                if not (y.get("k") == "bin" and y["op"] == "-"):
+                    continue
+                a, b = core.strip_casts(y["x"]), core.strip_casts(y["y"])
+                if not (core.is_ref(a) and core.is_ref(b) and a.get("id") in pids and b.get("id") in pids):
+                    continue
+                if not any(q.get("k") == "bin" and q["op"] in ("<", ">", "<=", ">=") for q in ps):
+                    continue
+                n += 1
+                rep.functions.add(fn.name)
+                # an ordering test of the two parameters on the way: in the same condition chain (a block that dominates this
+                # one or is this one) with an edge that leaves
+                ordered = False
+                for b2 in fn.reachable_blocks():
+                    c2 = fn.blocks[b2].cond
+                    if c2 is None or not (fn.dominates(b2, bid)):
+                        continue
+                    for z, _ in _walk(c2):
+                        if z.get("k") == "bin" and z["op"] in ("<", ">", "<=", ">=") and z is not None:
+                            l_, r_ = core.strip_casts(z["x"]), core.strip_casts(z["y"])
+                            if core.is_ref(l_) and core.is_ref(r_) and {l_.get("id"), r_.get("id")} == {a["id"], b["id"]} and (b2 != bid or not any(w is y for w, _ in _walk(z))):
+                                ordered = True
+                desc = "%s: `%s` is computed only after %s <= %s was established" % (fn.name, key(y), pids[b["id"]], pids[a["id"]])
+                (rep.proved if ordered else rep.violated)("R-WRAP", fn, "difference-of-parameters:%s-%s" % (pids[a["id"]], pids[b["id"]]), desc, "" if ordered else
+                                                          "with %s > %s the difference wraps, the capacity test passes and the byte at %s is read behind the buffer" % (pids[b["id"]], pids[a["id"]], pids[b["id"]]), y.get("ln"))
+    return n
+
+
+INOUT = {"ht2sp": ("buf", "ret_buf"), "wsp2sp": ("buf", "ret_buf")}      # (input, output) of the copy-and-convert routines
+
+
+def output_only_rule(rep, u):
+    """a routine that converts from an input buffer into an output buffer stores only through pointers derived from the output"""
+    n = 0
+    for fname, (src, dst) in sorted(INOUT.items()):
+        fn = u.fn(fname)
+        if fn is None or not fn.has_cfg:
+            raise driver.AnalysisBroken("anchor %s vanished" % fname)
+        ids = {p["n"]: p["id"] for p in fn.params}
+        if src not in ids or dst not in ids:
+            raise driver.AnalysisBroken("%s: parameters %s/%s not found" % (fname, src, dst))
+        from_in = {ids[src]}
+        from_out = {ids[dst]}
+        changed = True
+        while changed:
+            changed = False
+            for pos, root, x, ps in fn.nodes():
+                if x.get("k") == "bin" and x["op"] == "=" and core.is_ref(core.strip_casts(x["x"])) and core.strip_casts(x["x"]).get("dk") == "local":
+                    l = core.strip_casts(x["x"])["id"]
+                    srcs = core.ref_ids(x["y"])
+                    # a search result points into the buffer searched (its second argument), not into whatever else is mentioned
+                    rhs = core.strip_casts(x["y"])
+                    if rhs.get("k") == "call" and (rhs.get("fn") or "").startswith(("mem_chr", "mem_find", "memchr", "memmem")) and len(rhs["args"]) > 1:
+                        srcs = core.ref_ids(rhs["args"][0]) | core.ref_ids(rhs["args"][1])
+                    if srcs & from_in and l not in from_in:
+                        from_in.add(l)
+                        changed = True
+                    if srcs & from_out and l not in from_out:
+                        from_out.add(l)
+                        changed = True
+        rep.functions.add(fname)
+        for pos, root, x, ps in fn.nodes():
+            if not (x.get("k") == "bin" and x["op"] in ("=", "|=", "&=", "+=")):
+                continue
+            l = core.strip_casts(x["x"])
+            if not ((l.get("k") == "un" and l["op"] == "*") or l.get("k") == "sub"):
+                continue
+            b = core.base_ref(l)
+            if b is None or b.get("id") in (ids.get("buf_size_ret"),) or (u.type(b["t"]) or {}).get("k") != "ptr":
+                continue
+            if b["id"] not in from_in and b["id"] not in from_out:
+                continue
+            n += 1
+            bad = b["id"] in from_in and b["id"] not in from_out
+            desc = "%s: the store at line %s goes to the output buffer" % (fname, x.get("ln"))
+            (rep.proved if not bad else rep.violated)("R-OUTONLY", fn, "store-through:%s" % b["n"], desc, "" if not bad else
+                                                      "%s points into the input: %s(in, n, out != in) rewrites the caller's input and leaves the output unconverted" % (b["n"], fname), x.get("ln"))
+    return n
